@@ -13,3 +13,8 @@ pub use graph::{
 pub use schedule::{
     ComputedScheduleError, ComputedScheduleItem, Schedule, ScheduleSeconds, Seconds, TimeSpan,
 };
+
+#[cfg(rigetti_quil_rs_verif)]
+pub use graph::verif;
+#[cfg(rigetti_quil_rs_verif)]
+pub use graph::InstructionFrameInteraction;
